@@ -1,16 +1,8 @@
 #!/bin/bash
-# usage: tools/try_mutant.sh <patch.diff> <ID> [<ID>...]   (quick tier; set TIER=thorough to override)
-# Applies the patch to /repo, runs the checks, reverts. Prints one line per check.
+# usage: tools/try_mutant.sh <patch.diff> <ID> [<ID>...]   quick tier of the given checks against one mutant,
+# in an isolated copy (never touches /repo); prints one line per check and appends to /verif/mutants/RESULTS.tsv
 set -u
-PATCH="$1"; shift
-cd /verif
-if ! git -C /repo diff --quiet; then echo "/repo has uncommitted changes"; exit 2; fi
-git -C /repo apply "$(realpath "$PATCH")" || { echo "patch does not apply"; exit 2; }
-for id in "$@"; do
-  out=$(VERIF_SEED=${VERIF_SEED:-1} ./check "$id" "${TIER:-quick}" 2>/dev/null)
-  rc=$?
-  echo "$id rc=$rc $(echo "$out" | grep -c '^VIOLATION') violation line(s): $(echo "$out" | grep -E '^(VIOLATION|INCONCLUSIVE)' | head -2 | tr '\n' ' ')"
-done
-git -C /repo checkout -- .
-# drop the replay files written while the mutant was applied
-for id in "$@"; do rm -f /verif/replays/$id/fail-*.replay; done
+P=$(realpath "$1"); shift
+N=$(basename "$P" .diff)
+MX=/tmp/mxm-$$ IDS="$*" OUT=/verif/mutants/RESULTS.tsv /verif/tools/seed_matrix.sh "$P" >/dev/null 2>&1
+grep -P "^$N\\t" /verif/mutants/RESULTS.tsv | tail -n $# | awk -F'\t' '{print $1, $2, "rc="$3, $4}'
